@@ -13,7 +13,7 @@ Inductive piece :=
 Definition piece_ok (p : piece) : bool :=
   match p with
   | P c => negb (is_ws c) && negb (is_quote c) && negb (c =? 92)
-  | Q q s => is_quote q && negb (existsb (Nat.eqb q) s)
+  | Q q s => is_quote q && negb (existsb (Nat.eqb q) s) && negb (existsb (Nat.eqb 10) s)      (* a quoted string lies within one line *)
   | B _ => true
   end.
 Definition render_piece (p : piece) : list byte :=
